@@ -30,6 +30,15 @@ PID = "C15"
 S_GUARD, S_DECLARATION, S_EXPRESSION, S_ASSIGN = None, None, None, None  # filled from the header below
 
 
+WARN_TPL = xmlgen.template("T", decl="clock x; int v;", locations=[xmlgen.location("id0", "L0", inv="x < 5"), xmlgen.location("id1", "L1"),
+                                                                   xmlgen.location("id2", "__RESET__")], init="id0",
+                           transitions=[xmlgen.transition("id0", "id1", select="v : int[0,1]", guard="x > 1", sync="u!"),
+                                        xmlgen.transition("id1", "id2", sync="c?", guard="x >= 2")])
+WARN_XML = xmlgen.nta("urgent chan u; chan c; int i;", [WARN_TPL], "P = T(); system P;")
+WARN_XTA = ("urgent chan u; chan c; int i;\nprocess T() { clock x; int v; state L0 { x < 5 }, L1, __RESET__; init L0; trans L0 -> L1 { select v : int[0,1]; "
+            "guard x > 1; sync u!; }, L1 -> __RESET__ { guard x >= 2; sync c?; }; }\nP = T();\nsystem P;\n")
+
+
 def parts():
     """xta_part_t enumerators from the tree being checked."""
     import re
@@ -98,6 +107,10 @@ def events():
                                                                        select="q : scalar[2]", guard="forall (z : sid_t) bys[z] >= 0 && i == 0")}),
         ("xta_scalar_sets", {"kind": "xta", "buf": "typedef scalar[2] t_t; t_t a; scalar[3] b; process P(scalar[2] p) { scalar[2] l; state s; init s; }\nsystem P;\n"}),
         ("decl_scalar_block", {"kind": "block", "builder": "doc", "part": P["S_DECLARATION"], "text": "scalar[4] s4; typedef scalar[2] u_t; u_t uu[2];"}),
+        # models that are accepted with warnings of every kind the type checker and the builders issue (a notice that is issued
+        # "once" must be once per document, not once per process)
+        ("xml_with_warnings", {"kind": "xml", "buf": WARN_XML}),
+        ("xta_with_warnings", {"kind": "xta", "buf": WARN_XTA}),
         ("xta_unknown_source", {"kind": "xta", "buf": "process P() { state A, B; init A; trans A -> B { }, -> A { guard 1 ( ; }; }\nsystem P;\n"}),
     ]
     return ev
